@@ -200,7 +200,7 @@ pub fn generate(seed: u64, run: u64) -> BerCfg {
 
 pub fn main(opts: &Opts) -> ! {
     let (n_runs, budget, recheck) = match opts.tier {
-        Tier::Quick => ((6000.0 * opts.scale) as u64, 240.0, 5),
+        Tier::Quick => ((30_000.0 * opts.scale) as u64, 240.0, 3),
         Tier::Thorough => ((400_000.0 * opts.scale) as u64, 3000.0, 2),
     };
     let oracle = |c: &BerCfg, o: &BerObs| oracle_c13(c, o);
